@@ -234,7 +234,8 @@ def c16_2(ctx):
     e6, _n = _codec(p6)
     ctx.check(e6 == {("True", "return struct.unpack('<Q', p0.read(6) + b'\\x00\\x00')[0]")}, "int6-parse", MPP + ":1", "codec '6' parses with %s; it must be struct.unpack('<Q', 6 bytes + 2 zero bytes)" % sorted(e6 or []), sample={"parse": sorted(e6 or [])})
     e6s, _n = _codec(s6)
-    ctx.check(e6s in ({("True", "return p0.write(struct.pack('<Q', p1)[:6])")}, {("True", "fall")} if False else None) or e6s == {("True", "return p0.write(struct.pack('<Q', p1)[:6])")}, "int6-stream", MPP + ":1",
+    # the first six of the eight bytes, counted from either end
+    ctx.check(e6s in ({("True", "return p0.write(struct.pack('<Q', p1)[:6])")}, {("True", "return p0.write(struct.pack('<Q', p1)[:-2])")}), "int6-stream", MPP + ":1",
               "codec '6' streams with %s; it must be struct.pack('<Q', v)[:6]" % sorted(e6s or []))
     # optional bool: absent <-> None, present byte <-> its truth value
     p, s = codecs.get("O", (None, None))
